@@ -22,6 +22,7 @@ def main(argv=None):
     ap.add_argument("pid")
     ap.add_argument("--tier", default=os.environ.get("VERIF_TIER", "quick"))
     ap.add_argument("--replay", default=None)
+    ap.add_argument("--no-evidence", action="store_true", help="self-test runs on scratch copies: do not write evidence")
     a = ap.parse_args(argv)
     tier = a.tier if a.tier in ("quick", "thorough") else "quick"
     pid = a.pid.upper()
@@ -35,8 +36,9 @@ def main(argv=None):
                 return 2
             raise
         res = Result(pid, tier, getattr(mod, "LEVEL", "other"))
+        res.write_evidence = not a.no_evidence
         mod.run(res, tier)
-        if tier == "thorough" and hasattr(mod, "selftest"):
+        if tier == "thorough" and hasattr(mod, "selftest") and not a.no_evidence:
             mod.selftest(res)
         code = res.finish()
         if a.replay:
